@@ -221,6 +221,18 @@ def parseHex4 (hex : List Byte) : Except JErr Nat :=
       | some d => .ok ((v * 16 + d) % 65536)
       | none => .error .invalidUnicodeEscape) 0
 
+/-- The two-character escapes of `decode_escapes`' `match`: `\" \\ \/ \b \f \n \r \t`. -/
+def simpleEsc (c : Byte) : Option Byte :=
+  if c = 0x22#8 then some 0x22#8
+  else if c = 0x5C#8 then some 0x5C#8
+  else if c = 0x2F#8 then some 0x2F#8
+  else if c = 0x62#8 then some 0x08#8
+  else if c = 0x66#8 then some 0x0C#8
+  else if c = 0x6E#8 then some 0x0A#8
+  else if c = 0x72#8 then some 0x0D#8
+  else if c = 0x74#8 then some 0x09#8
+  else none
+
 /-- `char::from_u32` succeeds exactly on Unicode scalar values. -/
 def charFromU32 (cp : Nat) : Option Nat := if Utf8.isScalar cp then some cp else none
 
@@ -231,6 +243,33 @@ def chunkEnd (bytes : Array Byte) : Nat → Nat → Nat
   | fuel + 1, i => if i < bytes.size ∧ bytes.getD i 0#8 ≠ 0x5C#8 then chunkEnd bytes fuel (i + 1) else i
 
 def slice (bytes : Array Byte) (a b : Nat) : List Byte := (bytes.extract a b).toList
+
+/-- The `b'u'` arm of `decode_escapes`: `i` is the index of the `u`.  Returns the index of the last
+byte consumed (the loop then adds 1) and the UTF-8 bytes pushed. -/
+def decodeUnicode (bytes : Array Byte) (i : Nat) : Except JErr (Nat × List Byte) :=
+  if i + 4 ≥ bytes.size then .error .invalidUnicodeEscape
+  else
+    match parseHex4 (slice bytes (i + 1) (i + 5)) with
+    | .error e => .error e
+    | .ok codepoint =>
+      let i := i + 4
+      if 0xD800 ≤ codepoint ∧ codepoint ≤ 0xDBFF then
+        if i + 6 < bytes.size ∧ bytes.getD (i + 1) 0#8 = 0x5C#8 ∧ bytes.getD (i + 2) 0#8 = 0x75#8 then
+          match parseHex4 (slice bytes (i + 3) (i + 7)) with
+          | .error e => .error e
+          | .ok low =>
+            if 0xDC00 ≤ low ∧ low ≤ 0xDFFF then
+              let cp := 0x10000 + ((codepoint - 0xD800) * 1024) + (low - 0xDC00)
+              match charFromU32 cp with
+              | some c => .ok (i + 6, Utf8.encode c)
+              | none => .error .invalidUnicodeEscape
+            else .error .invalidUnicodeEscape
+        else .error .invalidUnicodeEscape
+      else if 0xDC00 ≤ codepoint ∧ codepoint ≤ 0xDFFF then .error .invalidUnicodeEscape
+      else
+        match charFromU32 codepoint with
+        | some c => .ok (i, Utf8.encode c)
+        | none => .error .invalidUnicodeEscape
 
 /-- The `while i < bytes.len()` loop of `decode_escapes`; `acc` is the `String` built so far (its
 UTF-8 bytes). -/
@@ -243,39 +282,14 @@ def decodeLoop (bytes : Array Byte) : Nat → Nat → List Byte → Except JErr 
         else
           let i := i + 1
           let c := bytes.getD i 0#8
-          if c = 0x22#8 then decodeLoop bytes fuel (i + 1) (acc ++ [0x22#8])
-          else if c = 0x5C#8 then decodeLoop bytes fuel (i + 1) (acc ++ [0x5C#8])
-          else if c = 0x2F#8 then decodeLoop bytes fuel (i + 1) (acc ++ [0x2F#8])
-          else if c = 0x62#8 then decodeLoop bytes fuel (i + 1) (acc ++ [0x08#8])
-          else if c = 0x66#8 then decodeLoop bytes fuel (i + 1) (acc ++ [0x0C#8])
-          else if c = 0x6E#8 then decodeLoop bytes fuel (i + 1) (acc ++ [0x0A#8])
-          else if c = 0x72#8 then decodeLoop bytes fuel (i + 1) (acc ++ [0x0D#8])
-          else if c = 0x74#8 then decodeLoop bytes fuel (i + 1) (acc ++ [0x09#8])
-          else if c = 0x75#8 then
-            if i + 4 ≥ bytes.size then .error .invalidUnicodeEscape
-            else
-              match parseHex4 (slice bytes (i + 1) (i + 5)) with
+          match simpleEsc c with
+          | some ch => decodeLoop bytes fuel (i + 1) (acc ++ [ch])
+          | none =>
+            if c = 0x75#8 then
+              match decodeUnicode bytes i with
               | .error e => .error e
-              | .ok codepoint =>
-                let i := i + 4
-                if 0xD800 ≤ codepoint ∧ codepoint ≤ 0xDBFF then
-                  if i + 6 < bytes.size ∧ bytes.getD (i + 1) 0#8 = 0x5C#8 ∧ bytes.getD (i + 2) 0#8 = 0x75#8 then
-                    match parseHex4 (slice bytes (i + 3) (i + 7)) with
-                    | .error e => .error e
-                    | .ok low =>
-                      if 0xDC00 ≤ low ∧ low ≤ 0xDFFF then
-                        let cp := 0x10000 + ((codepoint - 0xD800) * 1024) + (low - 0xDC00)
-                        match charFromU32 cp with
-                        | some c => decodeLoop bytes fuel (i + 6 + 1) (acc ++ Utf8.encode c)
-                        | none => .error .invalidUnicodeEscape
-                      else .error .invalidUnicodeEscape
-                  else .error .invalidUnicodeEscape
-                else if 0xDC00 ≤ codepoint ∧ codepoint ≤ 0xDFFF then .error .invalidUnicodeEscape
-                else
-                  match charFromU32 codepoint with
-                  | some c => decodeLoop bytes fuel (i + 1) (acc ++ Utf8.encode c)
-                  | none => .error .invalidUnicodeEscape
-          else .error .invalidEscape
+              | .ok (i', out) => decodeLoop bytes fuel (i' + 1) (acc ++ out)
+            else .error .invalidEscape
       else
         let j := chunkEnd bytes (bytes.size + 1) i
         let chunk := slice bytes i j
